@@ -15,8 +15,10 @@ import (
 	"strings"
 
 	"pault.ag/go/debian/control"
+	"pault.ag/go/debian/deb"
 	"pault.ag/go/debian/dependency"
 	"verifsim/rt"
+	"verifsim/simdisk"
 	"verifsim/simio"
 	"verifsim/simos"
 )
@@ -740,8 +742,45 @@ func c10Concurrent(r *rt.Run) {
 	}
 }
 
+// c10DebControl: the control file of a .deb, decoded by deb.Load, is the sixth
+// document kind of the statement: every field equals the packaged paragraph.
+func c10DebControl(r *rt.Run) {
+	t := r.T
+	p := genDeb(t, r, t.Draw(9, "c10.deb.pair"), []string{"", "gz", "zst"})
+	disk := simdisk.New(r, "deb", p.Image)
+	disk.DrawProfile()
+	var d *deb.Deb
+	var err error
+	task := r.Solo("loader", func() { d, err = deb.Load(typedReaderAt(r, p.Image, disk), "/pool/x.deb") })
+	if taskTrouble(r, "C10", "deb-control", task) {
+		return
+	}
+	key := "deb-control/" + p.CtlCodec
+	if err != nil || d == nil {
+		r.Violate("C10/parse-error", key, "well-formed package rejected: %v", err)
+		return
+	}
+	if diff := controlDiff(&d.Control, &p.Ctl.Model); diff != "" {
+		r.Violate("C10/field-mismatch", key+"/"+fieldOf(diff), "%s\ncontrol file (%d bytes, %d files in control.tar%s):\n%s", diff, len(p.Ctl.Model.render()), len(p.Ctl.Files), codecExt(p.CtlCodec), clip(p.Ctl.Model.render(), 500))
+	}
+	wantSrc := p.Ctl.Model.Source
+	if wantSrc == "" {
+		wantSrc = p.Ctl.Model.Package
+	}
+	if got := d.Control.SourceName(); got != wantSrc {
+		r.Violate("C10/field-mismatch", key+"/SourceName()", "SourceName()=%q want %q", got, wantSrc)
+	}
+	d.Close()
+	r.Probe("control-file-of-a-deb")
+}
+
 func runC10(r *rt.Run, tier string) {
 	t := r.T
+	if t.Bool(1, 10, "c10.part-debcontrol") {
+		r.Stats["kind.deb-control"]++
+		c10DebControl(r)
+		return
+	}
 	if t.Bool(1, 12, "c10.part-concurrent") {
 		r.Stats["part.concurrent-callers"]++
 		c10Concurrent(r)
@@ -796,5 +835,5 @@ func init() {
 		},
 		Assumptions: []string{"the .deb control file kind of this property is exercised by C14's check", "two-part architecture names are compared on OS and CPU only"},
 	})
-	propProbes["C10"] = []string{"GetDSC", "same-kind-decoded-by-concurrent-callers-first-thing-in-the-run", "relative-names-after-a-change-of-directory", "clearsigned-document", "several-document-kinds-in-one-run", "line-longer-than-4096-bytes", "caller-bufio-smaller-than-4096", "via-file-entry-point"}
+	propProbes["C10"] = []string{"control-file-of-a-deb", "GetDSC", "same-kind-decoded-by-concurrent-callers-first-thing-in-the-run", "relative-names-after-a-change-of-directory", "clearsigned-document", "several-document-kinds-in-one-run", "line-longer-than-4096-bytes", "caller-bufio-smaller-than-4096", "via-file-entry-point"}
 }
